@@ -1,5 +1,6 @@
 SPECIFICATION GSpec
 CONSTANTS Devs = @DEVS@
+          Follow = @FOLLOW@
           InitSizes = {0, 3, 4}
           Roots = {"pb", "tree"}
           WLens = {0, 1, 3}
